@@ -75,11 +75,11 @@ theorem Map.del_set {κ ν} [DecidableEq κ] (m : Map κ ν) (k : κ) (v : ν) (
       simp [Map.set, Map.del, hk, ih h]
 
 theorem mem_sortReqIds (l : List ReqId) (r : ReqId) : r ∈ sortReqIds l ↔ r ∈ l := by
-  unfold sortReqIds; exact List.mem_mergeSort
+  unfold sortReqIds; exact (isort_perm _ l).mem_iff
 
 theorem nodup_sortReqIds (l : List ReqId) (h : l.Nodup) : (sortReqIds l).Nodup := by
   unfold sortReqIds
-  exact (List.mergeSort_perm l _).nodup_iff.mpr h
+  exact (isort_perm _ l).nodup_iff.mpr h
 
 end SM
 
